@@ -45,7 +45,7 @@ def kv(head):
 MK = re.compile(r"(\d+)@(-?\d+):")
 
 
-def final_equal(a, b):
+def final_equal(a, b, stamp_before_upload=False):
     """FINAL segments equal, mark times compared with a tolerance of 2 ticks (the plan time is
     read off the clock between two logged operations)."""
     if a == b:
@@ -55,7 +55,10 @@ def final_equal(a, b):
         return False
     ta = sorted((int(p), int(t)) for p, t in MK.findall(a))
     tb = sorted((int(p), int(t)) for p, t in MK.findall(b))
-    return len(ta) == len(tb) and all(x[0] == y[0] and abs(x[1] - y[1]) <= 2 for x, y in zip(ta, tb))
+    # a = model, b = real.  When a prune was parked INSIDE its index write, the real stamp (taken right before
+    # the write) precedes the completion of the write, which is when the model stamps (atomic index write)
+    ok = lambda m, r: abs(m - r) <= 2 or (stamp_before_upload and r <= m)
+    return len(ta) == len(tb) and all(x[0] == y[0] and ok(x[1], y[1]) for x, y in zip(ta, tb))
 
 
 SIG = "prune-marks-carry-plan-time"
@@ -229,7 +232,7 @@ def run(ctx):
         if m:
             if mh.get("run") != "ok":
                 mism.append((ln, "real operation log is not a path of the model: " + mh.get("run", "?"), m[:300]))
-            elif not final_equal(mfin, fin):
+            elif not final_equal(mfin, fin, "index" in (h.get("parkopA"), h.get("parkopB")) and h["A"][0] + h["B"][0] != "BB"):
                 mism.append((ln, "final abstract state differs", "model: %s\nreal:  %s" % (mfin[:1500], fin[:1500])))
             elif (mh.get("closed_final") == "true") != (not lost) and int(h["kd"]) > 0:
                 mism.append((ln, "model says closed_final=%s, real oracle lost=%s" % (mh.get("closed_final"), lost), m[:300]))
